@@ -4,6 +4,7 @@
 //verif:assume label names in VerifC08Names: 1..2 arbitrary bytes
 //verif:cover VerifC08History reassigned deleted-then-get same-label-two-repos
 //verif:cover VerifC08Names accepted-and-listed
+//verif:cover VerifC08RepoRecreate labels-without-bundles
 package core
 
 import (
@@ -159,4 +160,38 @@ func VerifC08Names() {
 	l2 := NewLabel(LabelDescriptor(model.NewLabelDescriptor(model.LabelName(name))))
 	err = l2.DownloadDescriptor(ctx, NewBundle(Repo("r"), ContextStores(stores), Logger(zap.NewNop())), true)
 	vAssert(err == nil && l2.Descriptor.BundleID == vB1, "accepted-name-resolves")
+}
+
+// VerifC08RepoRecreate: deleting a repository deletes its labels; a repository created again under the same name
+// starts without labels (a label never resolves to an assignment made in a deleted repository).
+func VerifC08RepoRecreate() {
+	vBudget(200000000)
+	vUnwind(100000)
+	meta := newVStore("meta")
+	vmeta := newVStore("vmeta")
+	stores := vCtxStoresAll(meta, vmeta, newVStore("blob"))
+	vPutRepo(meta, "r")
+	vPutRepo(meta, "r2")
+	withBundle := vChoose("repoHasBundle", 2) == 1
+	if withBundle {
+		vPutBundle(meta, "r", vB1, 1, true)
+	} else {
+		vCover("labels-without-bundles")
+	}
+	ctx := context.Background()
+	set := func(repo, name, bundle string) {
+		lab := NewLabel(LabelDescriptor(model.NewLabelDescriptor(model.LabelName(name), model.LabelContributor(model.Contributor{Name: "n", Email: "e@x.io"}))))
+		vAssert(lab.UploadDescriptor(ctx, NewBundle(Repo(repo), ContextStores(stores), BundleID(bundle), Logger(zap.NewNop()))) == nil, "set-label")
+	}
+	set("r", "v1", vB1)
+	set("r2", "v1", vB2)
+	vAssert(DeleteRepo("r", stores) == nil, "delete-repo")
+	vAssert(CreateRepo(model.RepoDescriptor{Name: "r", Description: "again", Contributor: model.Contributor{Name: "n", Email: "e@x.io"}}, stores) == nil, "create-again")
+	got, err := ListLabels("r", stores)
+	vAssert(err == nil && len(got) == 0, "recreated-repository-has-no-labels")
+	lab := NewLabel(LabelDescriptor(model.NewLabelDescriptor(model.LabelName("v1"))))
+	err = lab.DownloadDescriptor(ctx, NewBundle(Repo("r"), ContextStores(stores), Logger(zap.NewNop())), true)
+	vAssert(err != nil && errors.Is(err, status.ErrNotFound), "label-of-a-deleted-repository-does-not-resolve")
+	other, err := ListLabels("r2", stores)
+	vAssert(err == nil && len(other) == 1 && other[0].BundleID == vB2, "labels-of-other-repositories-untouched")
 }
